@@ -417,7 +417,7 @@ package proxy
 //@   loop 1 decreases pEnd - p + 1
 //@   check overflow
 
-//@ unit health_check_interval frames=on props=C11 dispenser_variants=on filter=`proxy\.staticUpstream\)\.HealthCheckWorker$|proxy\.parseBlock$`
+//@ unit health_check_interval frames=on props=C11,C04 dispenser_variants=on filter=`proxy\.staticUpstream\)\.HealthCheckWorker$|proxy\.parseBlock$`
 //@ // The health-check worker started by the proxy setup hands the configured interval to time.NewTicker, which panics on a
 //@ // non-positive one (in a goroutine nobody recovers: the process dies after a load that reported success). Invariant of
 //@ // an upstream under construction: the interval is never negative, and positive once a health-check path is set (the
@@ -439,6 +439,9 @@ package proxy
 //@   modifies Dispenser.cursor, staticUpstream, MV:map[string][]github.com/tmpim/casket/caskethttp/proxy.headerReplacement, MD:map[string][]github.com/tmpim/casket/caskethttp/proxy.headerReplacement, E:github.com/tmpim/casket/caskethttp/proxy.headerReplacement
 //@   ensures [interval_stays_positive] result == nil ==> hcOK(u)
 //@   ensures [cursor_monotone] c.cursor >= old(c.cursor)
+//@   // C04 "the configured without prefix": the prefix is kept byte for byte as the Casketfile has it ("/api/" is not "/api":
+//@   // the director trims exactly this string from the front of the path)
+//@   at call fieldstore:staticUpstream.WithoutPathPrefix before [without_prefix_as_written] arg1 == c.Val()
 
 //@ unit upstream_constructor frames=on props=C04,C11 dispenser_variants=on nilchecks=on filter=`proxy\.NewStaticUpstreams$|proxy\.NewStaticUpstreams\$1$`
 //@ // The constructor of a proxy block. C11: safety and termination for every token sequence. C04 ("exactly the configured
